@@ -69,7 +69,8 @@ class C08(Prop):
                 'namespace TTV.Generated.C08\n'
                 'def tbtStatusWords : List (String × String) := [%s]\n'
                 'end TTV.Generated.C08\n' % rows)
-        return {'TTV/Generated/C08.lean': text}
+        from harness.pyres2lean import emit_c08      # translator tie (DESIGN D.2a 2e)
+        return {'TTV/Generated/C08.lean': text, 'TTV/Generated/EtodSrc.lean': emit_c08(repo)}
 
     # ----- implementation side
     def run_impl(self, inp):
